@@ -164,6 +164,16 @@ fn tmp_path(tag: &str) -> std::path::PathBuf {
     p
 }
 
+/// runs `f` on a thread of its own and gives up after `secs` seconds (a runtime thread blocked in the kernel never
+/// returns: the scenario must not hang with it)
+fn with_deadline<T: Send + 'static>(secs: u64, f: impl FnOnce() -> T + Send + 'static) -> Option<T> {
+    let (tx, rx) = std::sync::mpsc::channel();
+    std::thread::spawn(move || {
+        let _ = tx.send(f());
+    });
+    rx.recv_timeout(Duration::from_secs(secs)).ok()
+}
+
 fn listen_tokio(from_fd: bool, k: usize) -> (bool, usize) {
     let path = tmp_path("t");
     let r = tokio_rt().block_on(async {
@@ -175,7 +185,7 @@ fn listen_tokio(from_fd: bool, k: usize) -> (bool, usize) {
             zlink_tokio::unix::bind(&path).unwrap()
         };
         let mut ids = vec![];
-        let mut served = 0;
+        let mut served: usize = 0;
         let mut clients = vec![];
         for _ in 0..k {
             clients.push(zlink_tokio::unix::connect(&path).await.unwrap());
@@ -199,6 +209,16 @@ fn listen_tokio(from_fd: bool, k: usize) -> (bool, usize) {
                 }
             }
         }
+        // the accepted connection then sends a message larger than the kernel's socket buffer to its client while
+        // the client receives it on the same executor thread: neither side may block that thread
+        for (i, (c, cl)) in conns.iter_mut().zip(clients.iter_mut()).enumerate() {
+            let big = Call::new(M::Blob { i: (7 + i) as u32, data: payload(300_000 + i, 7 + i) });
+            let (sent, got) = tokio::join!(c.send_call(&big), cl.receive_call::<M>());
+            let ok = sent.is_ok() && matches!(got, Ok(call) if got_hash(call.method()) == msg_hash(300_000 + i, 7 + i));
+            if !ok {
+                served = served.saturating_sub(1);
+            }
+        }
         let mut s = ids.clone();
         s.sort();
         s.dedup();
@@ -219,7 +239,7 @@ fn listen_smol(from_fd: bool, k: usize) -> (bool, usize) {
             zlink_smol::unix::bind(&path).unwrap()
         };
         let mut ids = vec![];
-        let mut served = 0;
+        let mut served: usize = 0;
         let mut clients = vec![];
         for _ in 0..k {
             clients.push(zlink_smol::unix::connect(&path).await.unwrap());
@@ -241,6 +261,16 @@ fn listen_smol(from_fd: bool, k: usize) -> (bool, usize) {
                 if got_hash(call.method()) == msg_hash(10 + i, i) {
                     served += 1;
                 }
+            }
+        }
+        // the accepted connection then sends a message larger than the kernel's socket buffer to its client while
+        // the client receives it on the same executor thread: neither side may block that thread
+        for (i, (c, cl)) in conns.iter_mut().zip(clients.iter_mut()).enumerate() {
+            let big = Call::new(M::Blob { i: (7 + i) as u32, data: payload(300_000 + i, 7 + i) });
+            let (sent, got) = futures_lite::future::zip(c.send_call(&big), cl.receive_call::<M>()).await;
+            let ok = sent.is_ok() && matches!(got, Ok(call) if got_hash(call.method()) == msg_hash(300_000 + i, 7 + i));
+            if !ok {
+                served = served.saturating_sub(1);
             }
         }
         let mut s = ids.clone();
@@ -562,8 +592,12 @@ pub fn main(o: &Opts) {
         for from_fd in [false, true] {
             for k in [1usize, 3, 8] {
                 em.case(|| {
-                    let (distinct, served) = if rt == "tokio" { listen_tokio(from_fd, k) } else { listen_smol(from_fd, k) };
-                    vec![format!("unix listen {rt} {} n={k} => ids={} served={served}", if from_fd { "fd" } else { "bound" }, if distinct { "distinct" } else { "dup" })]
+                    let tk = rt == "tokio";
+                    let r = with_deadline(40, move || if tk { listen_tokio(from_fd, k) } else { listen_smol(from_fd, k) });
+                    match r {
+                        Some((distinct, served)) => vec![format!("unix listen {rt} {} n={k} => ids={} served={served}", if from_fd { "fd" } else { "bound" }, if distinct { "distinct" } else { "dup" })],
+                        None => vec![format!("unix listen {rt} {} n={k} => ids=unknown served=stalled", if from_fd { "fd" } else { "bound" })],
+                    }
                 });
             }
         }
